@@ -59,6 +59,15 @@ def exc_detail(ev):
     return ''
 
 
+def observed_site(obs):
+    """The internal-error site of one observation: the handler's (GENERAL_FAILURE item) or the response encoder's."""
+    if obs['reason'] == 'GENERAL_FAILURE':
+        return site_string(obs['crash'])
+    if obs.get('encode'):
+        return site_string(obs['encode'])
+    return None
+
+
 def site_string(c):
     """'file:function:Exception[(attr)]' - the form NoCrash/Model.v and gen/PieClasses.v use."""
     if c is None:
@@ -209,6 +218,12 @@ def _secret(otype, empty=False):
     if otype == 'PRIVATE_KEY':
         return kdrv.core_secret(t, cryptographic_algorithm=ALG.RSA, cryptographic_length=1024, key_format_type=KFT.PKCS_1,
                                 key_value=rsa['priv'], key_wrapping_data=None)
+    if otype == 'CERTIFICATE':
+        return kdrv.core_secret(t, certificate_type=enums.CertificateType.X_509, certificate_value=b'\x30\x82\x01\x0a' + b'\x44' * 20)
+    if otype == 'OPAQUE_DATA':
+        return kdrv.core_secret(t, opaque_data_type=enums.OpaqueDataType.NONE, opaque_data_value=b'\x66' * 16)
+    if otype == 'SECRET_DATA':
+        return kdrv.core_secret(t, key_format_type=KFT.OPAQUE, key_value=b'\x55' * 16, secret_data_type=enums.SecretDataType.PASSWORD)
     return kdrv.secret_for(t)
 
 
@@ -583,6 +598,9 @@ def target_menu(uid, ver, wrap_uids=()):
     out.append({'op': 'Get', 'uid': uid, 'wrap': {'encoding': 'NO_ENCODING'}})
     out += [{'op': 'GetAttributes', 'uid': uid, 'names': None}, {'op': 'GetAttributes', 'uid': uid, 'names': ['Name', 'State']},
             {'op': 'GetAttributes', 'uid': uid, 'names': CONSTRUCTIBLE + NAME_ONLY + UNKNOWN_NAMES},
+            {'op': 'GetAttributes', 'uid': uid, 'names': ['x-custom']}, {'op': 'GetAttributes', 'uid': uid, 'names': ['Certificate Type', 'Link']},
+            {'op': 'GetAttributes', 'uid': uid, 'names': ['Object Group', 'Application Specific Information', 'Contact Information']},
+            {'op': 'GetAttributes', 'uid': uid, 'names': ['Sensitive']}, {'op': 'GetAttributes', 'uid': uid, 'names': ['Operation Policy Name']},
             {'op': 'GetAttributeList', 'uid': uid}]
     for p in SYM_PARAMS:
         for iv in (IVS if p and p.get('block_cipher_mode') in (MODE.CBC, MODE.CTR, MODE.GCM) and p.get('padding_method') != PAD.OAEP else [None]):
@@ -1020,7 +1038,7 @@ class Grid:
             return obs
         cr, called = coq_cres(obs)
         term = '(kc (%d,%d) %s %s %s %s %s)' % (ver[0], ver[1], self.store_name(store_obs), cr, it,
-                                                cp.option(site_string(obs['crash']) if crashed else None, cp.string), cp.boolean(called))
+                                                cp.option(observed_site(obs), cp.string), cp.boolean(called))
         new = ctx.case_seen(term, nontrivial=True)
         if term not in self.seen:
             self.seen[term] = len(self.cases)
@@ -1225,6 +1243,9 @@ CORPUS = [
     ((2, 0), 'SECRET_DATA', 'Active', {'op': 'DeleteAttribute2', 'current': None, 'ref': 'x-custom'}),
     ((2, 0), 'PUBLIC_KEY', 'Active', {'op': 'SetAttribute', 'attr': {'name': 'Always Sensitive'}}),
     ((1, 3), 'CERTIFICATE', 'PreActive', {'op': 'Get', 'kft': 'RAW'}),
+    ((2, 0), 'SYMMETRIC_KEY', 'Active', {'op': 'GetAttributes', 'names': ['Bogus Name']}),
+    ((1, 4), 'SYMMETRIC_KEY', 'Active', {'op': 'GetAttributes', 'names': ['Bogus Name']}),
+    ((2, 0), 'OPAQUE_DATA', 'PreActive', {'op': 'GetAttributes', 'names': ['State', 'Cryptographic Usage Mask']}),
 ]
 
 
